@@ -1,24 +1,33 @@
 import UPVerif.Core.Sexp
 import UPVerif.Core.ExprSexp
 import UPVerif.Core.DagWalker
+import UPVerif.Core.DagCtx
 /-!
 Line-protocol handler for C14: replays one HISTORY of calls on the model of one environment's shared
 walkers (`Dag.Env`: Substituter, FreeVarsOracle, FreeVarsExtractor) plus two probe walkers, and
 prints, per call, the answer and the walker's observable state (stack length, cache size).
 
-  case   ::= (hist (reject expr*) (keep salt (expr*)) (calls call*))
+  case   ::= (hist (reject expr*) (keep salt (expr*)) (calls call*) [world])
+  world  ::= (world (types (name father|_)*) (pb (obj type)*)*)   -- the problems of the environment and their objects
   call   ::= (subst expr ((key value T|F)*))     -- pair flag = outcome of the compatibility test
+           | (mut obj p name type)                -- the caller adds an object to problem p between two calls
+           | (mut …)                              -- any other mutation: no effect on what the model follows
+           | (qrm p expr)                         -- the long-lived ExpressionQuantifiersRemover on problem p
            | (fv expr) | (fl expr)
            | (pinv salt (bad*) expr)              -- probe walker with a one-time cache
            | (pkeep expr)                         -- probe walker that keeps its cache
            | (other …)                            -- a call the model does not follow (oracle only)
-  answer ::= ((<result> (st <stack> <cache>))*)    `unmodelled` for `other`
+  answer ::= ((<result> (st <stack> <cache>))*)    `unmodelled` for `other`, `mutated` for `mut`;
+             a `qrm` answer also carries the shared Substituter's state (its node functions call it)
+
+`subst` / `fv` / `fl` / `mut` / `qrm` are steps of `Dag.EnvX.step` — the function the theorem
+`C14_envx_history_independent` is about.
 -/
 namespace UPVerif.Drv.C14
 open UPVerif UPVerif.Dag
 
 structure St where
-  env : Env
+  x : EnvX
   pinv : Walker Nat
   pkeep : Walker Nat
 
@@ -35,6 +44,10 @@ def ansOut : Ans → Sexp
   | .incompatible => .atom "incompatible"
   | .raised _ => .atom "raised"
   | .broken => .atom "broken"
+
+def optAnsOut : Option Ans → Sexp
+  | some a => ansOut a
+  | none => .atom "mutated"
 
 def probeOut : Except (Err Expr) Nat → Sexp
   | .ok n => Sexp.tag "ok" [Sexp.ofNat n]
@@ -56,16 +69,30 @@ def stepCall (reject : Expr → Bool) (keep : ProbeArg) (s : St) : Sexp → Opti
   | .list [.atom "subst", e, .list ps] => do
     let e' ← parseExpr e
     let σ ← parsePairs ps
-    let r := s.env.call reject (.subst σ e')
-    some (.list [ansOut r.1, stOut r.2.sub true], { s with env := r.2 })
+    let r := s.x.step reject (.call (.subst σ e'))
+    some (.list [optAnsOut r.1, stOut r.2.env.sub true], { s with x := r.2 })
   | .list [.atom "fv", e] => do
     let e' ← parseExpr e
-    let r := s.env.call reject (.freeVars e')
-    some (.list [ansOut r.1, stOut r.2.fv false], { s with env := r.2 })
+    let r := s.x.step reject (.call (.freeVars e'))
+    some (.list [optAnsOut r.1, stOut r.2.env.fv false], { s with x := r.2 })
   | .list [.atom "fl", e] => do
     let e' ← parseExpr e
-    let r := s.env.call reject (.fluents e')
-    some (.list [ansOut r.1, stOut r.2.fl false], { s with env := r.2 })
+    let r := s.x.step reject (.call (.fluents e'))
+    some (.list [optAnsOut r.1, stOut r.2.env.fl false], { s with x := r.2 })
+  | .list [.atom "mut", .atom "obj", p, .atom n, .atom t] => do
+    let p' ← p.asNat?
+    if p' < s.x.world.problems.length then
+      let r := s.x.step reject (.mutate (.addObject p' (n, t)))
+      some (optAnsOut r.1, { s with x := r.2 })
+    else none
+  | .list (.atom "mut" :: _) => some (.atom "mutated", s)
+  | .list [.atom "qrm", p, e] => do
+    let p' ← p.asNat?
+    let e' ← parseExpr e
+    if p' < s.x.world.problems.length then
+      let r := s.x.step reject (.qrm p' e')
+      some (.list [optAnsOut r.1, stOut r.2.qrm.walker true, stOut r.2.env.sub true], { s with x := r.2 })
+    else none
   | .list [.atom "pinv", salt, .list bad, e] => do
     let e' ← parseExpr e
     let n ← salt.asNat?
@@ -86,16 +113,42 @@ def runCalls (reject : Expr → Bool) (keep : ProbeArg) : St → List Sexp → O
     let r ← runCalls reject keep s' cs
     some (a :: r)
 
+def parseObjs : List Sexp → Option (List Obj)
+  | [] => some []
+  | .list [.atom n, .atom t] :: r => do
+    let r' ← parseObjs r
+    some ((n, t) :: r')
+  | _ => none
+
+def parseWorld : Sexp → Option QWorld
+  | .list (.atom "world" :: tys :: pbs) => do
+    let te ← parseTypeEnv tys
+    let ps ← pbs.mapM (fun pb => match pb with
+      | .list (.atom "pb" :: os) => parseObjs os
+      | _ => none)
+    some { types := te, problems := ps }
+  | _ => none
+
+def runCase (rej : List Sexp) (salt : Sexp) (bad : List Sexp) (calls : List Sexp) (W : QWorld) : Sexp :=
+  match rej.mapM parseExpr, salt.asNat?, bad.mapM parseExpr with
+  | some rs, some n, some b =>
+    let init : St :=
+      { x := { env := Env.fresh, world := W, qrm := { fields := none, walker := Walker.fresh } },
+        pinv := Walker.fresh, pkeep := Walker.fresh }
+    match runCalls (fun e => rs.contains e) { salt := n, bad := b } init calls with
+    | some out => .list out
+    | none => .atom "bad-case"
+  | _, _, _ => .atom "bad-case"
+
 def handle : Sexp → Sexp
   | .list [.atom "hist", .list (.atom "reject" :: rej), .list [.atom "keep", salt, .list bad],
            .list (.atom "calls" :: calls)] =>
-    match rej.mapM parseExpr, salt.asNat?, bad.mapM parseExpr with
-    | some rs, some n, some b =>
-      let init : St := { env := Env.fresh, pinv := Walker.fresh, pkeep := Walker.fresh }
-      match runCalls (fun e => rs.contains e) { salt := n, bad := b } init calls with
-      | some out => .list out
-      | none => .atom "bad-case"
-    | _, _, _ => .atom "bad-case"
+    runCase rej salt bad calls { types := { fathers := [] }, problems := [] }
+  | .list [.atom "hist", .list (.atom "reject" :: rej), .list [.atom "keep", salt, .list bad],
+           .list (.atom "calls" :: calls), w] =>
+    match parseWorld w with
+    | some W => runCase rej salt bad calls W
+    | none => .atom "bad-case"
   | _ => .atom "bad-case"
 
 end UPVerif.Drv.C14
